@@ -20,7 +20,7 @@ NOTE = ("Trusted: numpy.unique / intersect1d / DataFrame.apply(axis=1) / fillna 
 SER_SITES = [("pc", 1), ("pc_joint", 1), ("stdpc_joint", 1)]
 
 
-def run(r):
+def _rules(r, pre, purity):
     rep = r.rep
     rep.explanation = ("pc_n, both paths of pc, pc_joint and the tuple converter were reduced to normal forms from the current source and compared with "
                        "the specification of the statement; every row serialiser was checked against the accepted idioms.")
@@ -29,8 +29,9 @@ def run(r):
               "DataFrame.apply(f, axis=1) applies f to every row in order; DataFrame.fillna(c) replaces missing cells only",
               "exact arithmetic (no floating point)")
     # purity first: cheap, robust, and a recorded violation takes precedence over a later 'cannot decide'
-    check_pure_params(r, "C02-PURE", [M + "pc_n", M + "pc", M + "pc_joint", "pyrepseq.util.convert_tuple_to_dataframe_if_necessary"])
-    rep.floor("C02-PURE", 6)
+    if purity:
+        check_pure_params(r, "C02-PURE", [M + "pc_n", M + "pc", M + "pc_joint", "pyrepseq.util.convert_tuple_to_dataframe_if_necessary"])
+        rep.floor("C02-PURE", 6)
     # ---- C02-NA: library fact - DataFrame.value_counts() and groupby() leave out every row that holds a missing cell unless dropna=False is
     # given, while two rows with a missing cell in the same column coincide (fillna before serialisation); counting rows that way is wrong
     # whatever surrounds it
@@ -49,17 +50,17 @@ def run(r):
                 rooted = any(head(x) in ("param", "lparam") for x in walk(recv))
                 dn = dict(t[3]).get("dropna")
                 if rooted and not filled and not (dn is not None and is_const(strip(dn), False)):
-                    rep.ob("C02-NA", q, False, "rows with a missing cell take part in the count like any other row", where_of(r.P, s_cur.func, e.node),
+                    rep.ob(pre + "C02-NA", q, False, "rows with a missing cell take part in the count like any other row", where_of(r.P, s_cur.func, e.node),
                            expected="row-wise serialisation after fillna, or value_counts / groupby with dropna=False", found=show(t, 120), key=f"{f[2]} drops rows with missing cells", lint=True)
 
-    check_against_spec(r, "C02-RF", "pc_n", "pc_n(n) == sum n_i(n_i - 1) / (N (N - 1))", vec=vec_with_param0)
-    check_against_spec(r, "C02-RF", "pc", "pc one-sample == coinciding ordered pairs / N(N-1); two-sample == coinciding cross pairs / (N1 N2); tables serialised row-wise", vec=is_vec)
-    check_against_spec(r, "C02-JOINT", "pc_joint", "pc_joint == pc of the row serialisation of the selected columns, same token for both tables", vec=is_vec)
-    check_against_spec(r, "C02-TUP", "convert_tuple_to_dataframe_if_necessary", "a 2-tuple becomes a (CDR3A, CDR3B) table built row-wise in tuple order, anything else is returned unchanged",
+    check_against_spec(r, pre + "C02-RF", "pc_n", "pc_n(n) == sum n_i(n_i - 1) / (N (N - 1))", vec=vec_with_param0)
+    check_against_spec(r, pre + "C02-RF", "pc", "pc one-sample == coinciding ordered pairs / N(N-1); two-sample == coinciding cross pairs / (N1 N2); tables serialised row-wise", vec=is_vec)
+    check_against_spec(r, pre + "C02-JOINT", "pc_joint", "pc_joint == pc of the row serialisation of the selected columns, same token for both tables", vec=is_vec)
+    check_against_spec(r, pre + "C02-TUP", "convert_tuple_to_dataframe_if_necessary", "a 2-tuple becomes a (CDR3A, CDR3B) table built row-wise in tuple order, anything else is returned unchanged",
                        modname="pyrepseq.util", qual="pyrepseq.util.convert_tuple_to_dataframe_if_necessary")
-    rep.floor("C02-RF", 2)
-    rep.floor("C02-JOINT", 1)
-    rep.floor("C02-TUP", 1)
+    rep.floor(pre + "C02-RF", 2)
+    rep.floor(pre + "C02-JOINT", 1)
+    rep.floor(pre + "C02-TUP", 1)
 
     # ---- C02-SER: every row serialiser is SEP.join(str(v) for v in row) over the whole row with a non-empty separator, axis=1
     for fname, floor in SER_SITES:
@@ -91,16 +92,25 @@ def run(r):
             if sep is None and lam is not None and head(strip(lam)) != "lam":
                 rep.require(False, f"{q}: row serialiser {show(lam, 60)} is not a lambda / local function; cannot decide [C02-SER]")
                 continue
-            rep.ob("C02-SER", q, sep is not None, "row serialiser joins str() of every cell of the row", w,
+            rep.ob(pre + "C02-SER", q, sep is not None, "row serialiser joins str() of every cell of the row", w,
                    expected="lambda row: SEP.join(str(v) for v in row) (or map(str,row) / row.astype(str))", found=show(lam, 160), key=f"serializer form #{n}")
             if sep is not None:
                 sep_good = sep_ok(sep, s_cur) or (s_cur is not s and head(strip(sep)) == "param")   # a helper's separator parameter is checked at the call through the RF / JOINT rules
-                rep.ob("C02-SER", q, sep_good, "separator is a non-empty string (constant or defaulted parameter)", w,
+                rep.ob(pre + "C02-SER", q, sep_good, "separator is a non-empty string (constant or defaulted parameter)", w,
                        expected="non-empty separator", found=show(sep, 60), key=f"separator #{n}")
             ax = dict(t[3]).get("axis")
-            rep.ob("C02-SER", q, ax is not None and is_const(ax, 1), "serialiser is applied per row (axis=1)", w, expected="axis=1", found=show(ax) if ax else "axis omitted (column-wise)", key=f"axis #{n}")
+            rep.ob(pre + "C02-SER", q, ax is not None and is_const(ax, 1), "serialiser is applied per row (axis=1)", w, expected="axis=1", found=show(ax) if ax else "axis omitted (column-wise)", key=f"axis #{n}")
         rep.require(n >= floor, f"{q}: {n} row-serialiser site(s) found, floor is {floor}")
-    rep.floor("C02-SER", 9)
+    rep.floor(pre + "C02-SER", 9)
+
+
+def value_rules(r, pre=""):
+    """What pc_n / pc / pc_joint / the tuple converter return - run for dependent properties too."""
+    _rules(r, pre, purity=False)
+
+
+def run(r):
+    _rules(r, "", purity=True)
 
 
 from ..selftest import V  # noqa: E402
